@@ -19,6 +19,7 @@ fn() { local loc=l; loc2=(x y); SUB; }
 // mutating command lists; $X is an arbitrary string, $I an arbitrary small integer text
 var verifMutations = [...]string{
 	`a+=$X`, `a[$I]=$X`, `a+=($X)`, `unset a`, `unset "a[$I]"`, `a=($X)`, `a[0]+=$X`,
+	`pushd`, `popd -n`, `pushd -n /zz`, `popd`, `popd -n +1; pushd -n /y`, `dirs -c`,
 	`sp[$I]=$X`, `unset "sp[$I]"`, `sp+=($X)`,
 	`m[$X]=$X`, `unset "m[k]"`, `m+=([n]=$X)`, `m=()`,
 	`s=$X`, `s+=$X`, `e=$X`, `unset s`, `: ${s:=$X} ${un:=$X}`, `: $((s=5, a[1]=7, sp[$I]++))`, `let "a[$I]=1"`,
@@ -88,6 +89,12 @@ func Verif_c27_subshell() {
 	ref := verifParentRunner(x, idx, &o1, &e1)
 	tst := verifParentRunner(x, idx, &o2, &e2)
 	ctx := context.Background()
+	// both parents start with a directory stack of three entries, so that the
+	// stack operations of a subshell have something to write into
+	for _, r := range []*Runner{ref, tst} {
+		r.Reset()
+		r.dirStack = append(r.dirStack, "/p1", "/p2")
+	}
 	ref.Run(ctx, pRef)
 	ok := verifNoPanic(func() { tst.Run(ctx, pTest) })
 	verifAssert(ok, "running the subshell panicked")
